@@ -19,6 +19,8 @@ import PgProofs.GenoAlign
 import PgProofs.GenoDict
 import PgProofs.GenoDict2
 import PgProofs.GenoDictB
+import PgProofs.GenoLookup
+import PgGen.C12Tables
 import PgModel.Geno.Valid
 namespace Pg.Geno
 
@@ -146,6 +148,63 @@ theorem C12_dict_roundtrip_cond (o : Opts) (useInts : Bool) (rn : List String) (
     (d : DNA) (b : BDNA) (hv : Valid g d) (hb : g.annot d = some b) (hcond : Cond o useInts (puts o b) rn b) :
     g.fromDict useInts (toDict o b) = some d :=
   fromDict_toDict o useInts rn g hc d b hv hb hcond
+
+/-! ### the look-up structures and their caches -/
+
+/-- THE CACHE DISCIPLINE: whatever sequence of construction (`__init__`), rebinding (`_on_bound`
+fires after every change of value / children / metadata — every mutator and recombinator goes
+through it), cloning (`_sym_clone`) and looking up produced a DNA object, a filled
+`_decision_by_id_cache` / `_named_decisions` holds the tables of its CURRENT tree. -/
+theorem C12_lookup_caches_coherent (o : Obj) (h : Produced o) : o.Coherent :=
+  produced_coherent h
+
+/-- LOOK-UPS EQUAL THOSE OF THE REBUILT DNA: on every produced object with a valid tree,
+`_decision_by_id` and `named_decisions` (hence `dna[dp]`, `dna[id]`, `dna[name]`, which are
+functions of the two — `getItem`, `getItemDp`) are the ones of `DNA.from_numbers(d.to_numbers(), spec)`. -/
+theorem C12_lookups_of_rebuilt (o : Obj) (h : Produced o) (hc : o.spec.noCustom = true)
+    (hv : Valid o.spec o.tree) :
+    ∃ d', o.spec.fromNumbers (flat o.tree) = some d' ∧
+      o.readById.1 = (Obj.init o.spec d').readById.1 ∧
+      o.readNamed.1 = (Obj.init o.spec d').readNamed.1 :=
+  lookups_eq_rebuilt h hc hv
+
+/-- The discipline matters: a copy that keeps the caches of the original and is then given another
+tree (what `_sym_clone` must not do) answers look-ups with the OLD tree. -/
+theorem C12_clone_keeping_caches_incoherent :
+    let g := Spec.point (.choices 1 [[], []] true false { loc := [.s "a"] })
+    let o := (Obj.init g (.mk (.int 0) [])).readById.2
+    ¬ (o.cloneKeepingCaches (.mk (.int 1) [])).Coherent := by
+  intro g o h
+  have := h.1 _ rfl
+  revert this
+  decide
+
+/-- TRANSLATOR OBLIGATION (T-CACHE): the only writes to the two caches in pyglove/core/geno are the
+resets in `__init__` and `_on_bound` and the guarded fills of the two lazy properties (with these
+`to_dict` arguments); `_sym_clone` creates the copy through the constructor and writes no cache. -/
+theorem C12_shape_cache_writes :
+    Pg.C12Gen.cacheWrites =
+      [("DNA.__init__", "self._decision_by_id_cache", "", "None"),
+       ("DNA.__init__", "self._named_decisions", "", "None"),
+       ("DNA._on_bound", "self._decision_by_id_cache", "", "None"),
+       ("DNA._on_bound", "self._named_decisions", "", "None"),
+       ("DNA._decision_by_id", "self._decision_by_id_cache", "self._decision_by_id_cache is None",
+        "self.to_dict(key_type='id', value_type='dna', include_inactive_decisions=True, multi_choice_key='both')"),
+       ("DNA.named_decisions", "self._named_decisions", "self._named_decisions is None", "named_decisions")] ∧
+    Pg.C12Gen.cloneCreates = "other = super()._sym_clone(deep, memo)" ∧
+    Pg.C12Gen.otherFiles = [] := by
+  refine ⟨by rfl, by rfl, by rfl⟩
+
+/-- TRANSLATOR OBLIGATION: the accumulation loop of `named_decisions` and the dispatch of
+`__getitem__` are the ones `namedDecisions` / `getItem` were written from. -/
+theorem C12_shape_lookups :
+    Pg.C12Gen.namedLoop =
+      ["for (spec, dna) in self.to_dict(key_type='dna_spec', value_type='dna', multi_choice_key='parent', include_inactive_decisions=True).items()",
+       "if spec.name is not None: ; v = named_decisions.get(spec.name, None) ; if v is None: ; v = dna ; else: ; if not isinstance(dna, list): ; dna = [dna] ; if isinstance(v, list): ; v.extend(dna) ; else: ; v = [v] + dna ; named_decisions[spec.name] = v"] ∧
+    Pg.C12Gen.getItemStmts =
+      ["if isinstance(key, (int, slice)): ; return self.children[key]",
+       "if isinstance(key, DNASpec): ; key = key.id ; return self._decision_by_id[key] ; else: ; v = self.named_decisions.get(key, None) ; if v is None: ; v = self._decision_by_id[key] ; return v"] := by
+  refine ⟨by rfl, by rfl⟩
 
 /-- Dropping the condition: two decision points at the same location share one key, `to_dict()`
 turns their decisions into a list, and `from_dict` cannot read it back (replayed on the code:
